@@ -36,7 +36,7 @@ func c07(c *core.Ctx) string {
 	c.Rule("R-C07-2", "effective limit: the limit handed to FetchPayload is the specific (path / pool) value, replaced by the general (server / proxy) value exactly when the specific one is 0")
 	c.Rule("R-C07-3", "declared length (both FetchPayload): 0 is replaced by the default limit first; only a negative limit creates a stream; the buffer allocation and ReadFull are reachable only with ContentLength ≤ limit; a short read is reported (io.EOF mapped to ErrUnexpectedEOF, the read error returned)")
 	c.Rule("R-C07-4", "unknown length (both FetchPayload): the body is read through io.LimitReader(body, limit); when the limit was reached an extra-byte probe with io.Copy decides: extra bytes ⇒ too-large error, otherwise the probe's error (nil at exactly the limit)")
-	c.Rule("R-C07-5", "oversized response withheld: in ServerPool.buildResponse a failed resp.FetchPayload returns the error without SetOutputResponse; doHandle turns it into a 5xx serverPoolError")
+	c.Rule("R-C07-5", "oversized response withheld: in ServerPool.buildResponse a failed resp.FetchPayload returns the error without SetOutputResponse; doHandle turns it into a 5xx serverPoolError (408 only when the request context's deadline is known to have expired)")
 	c.NotDecided = []string{"the off-by-one comparison exactly at the limit (numeric)", "what net/http does with unread request bodies", "stream mode contents"}
 
 	c07Serve(c)
@@ -605,6 +605,14 @@ func c07Resp(c *core.Ctx) {
 					if tv, has := f.Info.Types[codeExpr]; has && tv.Value != nil {
 						if v := tv.Value.ExactString(); len(v) == 3 && v[0] == '5' {
 							ok = true
+						} else if v == "408" {
+							// the pool timeout expired while the body was read: a timeout, and the
+							// response is withheld all the same
+							for _, fact := range ex.State.Facts() {
+								if strings.HasSuffix(fact, "==@context.DeadlineExceeded=T") {
+									ok = true
+								}
+							}
 						}
 					}
 				}
@@ -613,6 +621,6 @@ func c07Resp(c *core.Ctx) {
 				bad = ex.State
 			}
 		}
-		c.Check(bad == nil && n > 0, "R-C07-5", cons+"|failed buildResponse ⇒ 5xx", pos(c, br), sprintf("%d exits return a serverPoolError with a 5xx code", n), "a failed buildResponse does not end in a 5xx serverPoolError", witness(bad)...)
+		c.Check(bad == nil && n > 0, "R-C07-5", cons+"|failed buildResponse ⇒ 5xx", pos(c, br), sprintf("%d exits return a serverPoolError with a 5xx code (408 only under an expired deadline)", n), "a failed buildResponse does not end in a 5xx serverPoolError (or 408 under an expired deadline): the oversized/unreadable response is not reported as a failure", witness(bad)...)
 	}
 }
